@@ -26,6 +26,8 @@ def configs(tier):
     # a disk whose only recorded state are DELETED positions (emptied, the sync that follows stops early)
     cs.append(Config(levels=2, ndisks=2, tag="emptied", contents=["c0/content", "c1/content"]))
     cs.append(Config(levels=1, ndisks=2, tag="phantom", contents=["c0/content", "c1/content"]))
+    # positions that hold a DELETED record on BOTH disks and a file on none, saved by a sync that starts beyond them
+    cs.append(Config(levels=1, ndisks=2, tag="codeleted", contents=["c0/content", "c1/content"]))
     if tier == "thorough":
         cs += [Config(levels=2, ndisks=3, tag="hole", contents=["c0/content", "c1/content"]),
                Config(levels=3, z=True, ndisks=2, hashsize=2, contents=["c0/content", "c1/content"])]
@@ -38,6 +40,9 @@ def init_ops(cfg):
         # right after its first content write (sync -E because the disk is now empty)
         return [("write", "d1", "A", 1024, 0), ("write", "d1", "B", 1024, 0), ("write", "d2", "C", 1024, 0), ("cmd", "sync"),
                 ("rm", "d1", "A"), ("cmd", "sync"), ("rm", "d2", "C"), ("cmd", "sync", "-E", "--test-kill-after-sync")]
+    if cfg.tag == "codeleted":
+        return [("write", "d1", "A", 2048, 0), ("write", "d1", "K", 1024, 0), ("write", "d2", "B", 2048, 0), ("write", "d2", "K2", 1024, 0),
+                ("cmd", "sync"), ("rm", "d1", "A"), ("rm", "d2", "B"), ("cmd", "sync", "-S", "2")]
     ops = C06.init_ops(cfg)
     # odd names, links, dirs before the first sync
     extra = [("write", "d1", "nl\nx", 10, 0), ("write", "d2", "co:lon", 1024, 0), ("write", "d1", "\udcff\udcfe", 0, 0),
